@@ -82,12 +82,50 @@ def guarded_gets(ctx, tu, rule):
     return n
 
 
+def binds_local_list(tu, f, p, depth=0):
+    """The list denoted by path p in f is a local list: a local of f, or a reference parameter of a non-public helper every call
+    site of which passes a local list (of its own, or one it received the same way)."""
+    vid = root_var_id(p)
+    if vid is None or len(p) != 1:
+        return False
+    if vid in f.var_decls():
+        return True
+    pidx = {pp['id']: i for i, pp in enumerate(f.params)}
+    if vid not in pidx or depth > 3 or f.access not in ('private', 'protected'):
+        return False
+    callers = tu.callers().get(f.id, [])
+    if not callers:
+        return False
+    for (g, n) in callers:
+        args = g.call_args(n)
+        if pidx[vid] >= len(args) or not binds_local_list(tu, g, path(g, args[pidx[vid]]), depth + 1):
+            return False
+    return True
+
+
+def std_sorts(f):
+    """Direct calls of the stable list sort on this list."""
+    return [n for n in f.calls() if (f.callee_key(n) or '') in ('std::list::sort',) and (path(f, f.call_obj(n)) if f.call_obj(n) else ('this',)) == ('this',)]
+
+
+def sort_sites(f):
+    """Calls in f after which this list is sorted: the stable std::list::sort on this, or a member helper of the class (doSort, or
+    whatever it is called) every path of which performs that sort."""
+    out = list(std_sorts(f))
+    for n in f.calls():
+        for g in f.callee_fns(n):
+            if g.cls == 'OrderedQueueList' and g.id != f.id and g.kind == 'method' and (path(f, f.call_obj(n)) if f.call_obj(n) else ('this',)) == ('this',):
+                if any(g.pos_postdominates(g.pos(s_), (g.entry, 0)) for s_ in std_sorts(g)):
+                    out.append(n)
+    return out
+
+
 def check_tu(ctx, tu):
     guarded_gets(ctx, tu, 'C13.S3')
     for f in tu.fns_named('OrderedQueueList::splice'):
         base = [n for n in f.calls() if (f.callee_key(n) or '').startswith('std::list::') and (f.callee(n) or {}).get('name') in
                 ('splice', 'merge', 'insert', 'emplace', 'push_back', 'push_front', 'emplace_back', 'emplace_front')]
-        sorts = [n for n in f.calls() if (f.callee_key(n) or '') == 'OrderedQueueList::doSort']
+        sorts = sort_sites(f)
 
         def arg_roots(call):
             got = []
@@ -126,7 +164,7 @@ def check_tu(ctx, tu):
             adds = [n for n in f.calls() if (f.callee_key(n) or '').startswith('std::list::') and (f.callee(n) or {}).get('name') in
                     ('splice', 'push_back', 'push_front', 'emplace_back', 'emplace_front', 'insert', 'emplace', 'merge')]
             if adds:
-                sorts = [n for n in f.calls() if (f.callee_key(n) or '') == 'OrderedQueueList::doSort']
+                sorts = sort_sites(f)
                 ok = any(f.pos_postdominates(f.pos(s), (f.entry, 0)) for s in sorts)
                 ctx.ob('C13.S1', f, '%s adds elements and sorts afterwards' % f.name, ok)
     # uses of base members on ordered lists from outside the class
@@ -158,7 +196,7 @@ def check_tu(ctx, tu):
                    key_detail='base member ' + name)
             if name == 'emplace_back':
                 p = path(f, obj)
-                islocal = root_var_id(p) is not None and root_var_id(p) in f.var_decls()
+                islocal = binds_local_list(tu, f, p)
                 ctx.ob('C13.S1', f, 'emplace_back (which does not sort) is applied only to a local list', islocal,
                        detail='receiver %s at %s' % (pstr(p), f.nloc(n)), where=f.nloc(n), key_detail='emplace_back local')
     for f in tu.fns_named('OrderedQueueListCompare::operator()'):
@@ -170,8 +208,13 @@ def check_tu(ctx, tu):
             ok = False
         ctx.ob('C13.S3', f, 'the default comparator orders queued events by `a.event < b.event` (a strict order on the event key)', ok,
                detail='extracted %s' % (F.show(fm) if 'fm' in dir() and fm else '?'), key_detail='default comparator')
-    for f in tu.fns_named('OrderedQueueList::doSort'):
+    for f in tu.fns:
+        # wherever the class sorts (doSort, or the sort written out in the splice overloads)
+        if f.cls != 'OrderedQueueList' or f.kind != 'method':
+            continue
         sorts = [n for n in f.calls() if (f.callee(n) or {}).get('name') in ('sort', 'stable_sort')]
+        if not sorts:
+            continue
         ok = len(sorts) == 1 and (f.callee_key(sorts[0]) or '') in ('std::list::sort', 'std::stable_sort')
         ctx.ob('C13.S2', f, 'doSort calls the stable std::list::sort exactly once on this list', ok and (path(f, f.call_obj(sorts[0])) if ok and f.call_obj(sorts[0]) else ('this',)) == ('this',),
                detail='sorting callees: %s' % [f.callee_key(n) for n in f.calls() if 'sort' in ((f.callee(n) or {}).get('name') or '')])
